@@ -256,7 +256,8 @@ def _r1(ctx):
         (ctx.unrec if mloops else ctx.missing)("R1", "macros:IDX_ELEM", (MACROS, 0), f"expected one loop over network.elements defining IDX_ELEM_ macros in the header, found {len(mloops)}")
     else:
         ml = mloops[0]
-        got = [(p_[0], _key_canon(p_[1])) if p_[0] == "val" else p_ for p_ in J.squeeze(J.printed(tree, ml[3], {}))]
+        # (`%d` / `{:d}` of the loop counter prints the counter)
+        got = [("val", _key_canon(p_[-1])) if p_[0] == "val" or (p_[0] == "fmt" and p_[1] in ("d", "i")) else p_ for p_ in J.squeeze(J.printed(tree, ml[3], {}))]
         want = [("lit", "#define IDX_ELEM_"), ("val", _key_canon(FIRST_KEY(ml[1]))), ("lit", " "), ("val", ("attr", ("name", "loop"), "index0"))]
         okm = got == want and ml[7] is None and ml[2] == ("attr", ("name", "network"), "elements")
         foundm = " ".join(p[1] if p[0] == "lit" else "{{ " + J.show(p[-1]) + " }}" if p[0] != "ctl" else "{% .. %}" for p in got)
@@ -614,7 +615,7 @@ BENIGN = [
     {"name": "element-count-try-except", "file": SPECIES, "old": "        if element in self.element_count.keys():\n            self.element_count[element] += count\n        else:\n            self.element_count[element] = count\n", "new": "        try:\n            self.element_count[element] += count\n        except KeyError:\n            self.element_count[element] = count\n"},
     {"name": "element-count-setdefault", "file": SPECIES, "old": "        if element in self.element_count.keys():\n            self.element_count[element] += count\n        else:\n            self.element_count[element] = count\n", "new": "        self.element_count.setdefault(element, 0)\n        self.element_count[element] += count\n"},
     {"name": "term-printf-format", "file": PHYS, "old": '{{ "{:.1f}".format(natom) ~ "*" ~ ab ~ " + "}}', "new": '{{ "%.1f*%s + " | format(natom, ab) }}'},
-    {"name": "abund-symbols-materialised", "file": PHYS, "old": 'map("suffix", "]") -%}', "new": 'map("suffix", "]") | list -%}'},
+    {"name": "abund-symbols-materialised", "file": PHYS, "old": '{% set specabund = network.species | map(attribute="alias") | map("prefix", "y[IDX_") | map("suffix", "]") -%}', "new": '{% set specabund = network.species | map(attribute="alias") | map("prefix", "y[IDX_") | map("suffix", "]") | list -%}', "count": 1},
     {"name": "header-loop-over-mapped-counts", "file": MACROS, "old": "{% for spec in network.elements %}\n#define IDX_ELEM_{{ spec.element_count.keys() | first }} {{ loop.index0 }}", "new": "{% for counts in network.elements | map(attribute=\"element_count\") %}\n{{ \"#define IDX_ELEM_\" ~ (counts | first) ~ \" \" ~ loop.index0 }}"},
     {"name": "eq-disjuncts-reordered", "file": SPECIES, "old": "                (self.is_electron and o.is_electron)\n                or (", "new": "                self.name == o.name\n                or (self.is_electron and o.is_electron)\n                or ("},
 ]
